@@ -95,6 +95,9 @@ impl WorldB {
                 if adv >= 2 && rng.chance(1, 30) {
                     return Op::new(K_CROSSRESP, rng.below(8), rng.below(64), 0, rng.below(7));
                 }
+                if adv >= 1 && rng.chance(1, 60) && self.tokens.iter().any(|t| t.adv_owned && t.expire_ts * 1000 <= self.sv_ms + 6000) {
+                    return Op::new(K_FORGEEXPIRY, rng.below(8), 0, rng.below(100_000), 0);
+                }
                 if adv >= 2 && !self.flooded && rng.chance(1, 600) {
                     return Op::new(K_FLOODSTEAL, rng.below(8), 0, 0, 0);
                 }
